@@ -32,7 +32,7 @@ js::Value tool_variant_json(const Plan &p) {
 void tool_build(const Plan &p, Case &c) {
   bool two = (p.variant & V_TWO) && p.chain >= 2;
   double box = 1.7 + 0.1 * (double)(p.case_seed % 6);
-  c.files["topol.xml"] = gen_topology_xml(p, two, box);
+  std::string topfile = add_topology(p, c, two, box);
   std::string trj = trj_file(p);
   c.files[trj] = gen_trajectory(p, box, p.nmol * p.chain);
   std::ostringstream o;
@@ -40,7 +40,7 @@ void tool_build(const Plan &p, Case &c) {
   if (two) o << " <non-bonded>\n  <name>A-B</name>\n  <type1>A</type1>\n  <type2>B</type2>\n  <min>0.0</min>\n  <max>0.4</max>\n  <step>0.1</step>\n </non-bonded>\n";
   o << "</cg>\n";
   c.files["settings.xml"] = o.str();
-  c.args = {"--top", "{IN}/topol.xml", "--trj", "{IN}/" + trj, "--options", "{IN}/settings.xml", "--subvolume_radius", "0.75"};
+  c.args = {"--top", "{IN}/" + topfile, "--trj", "{IN}/" + trj, "--options", "{IN}/settings.xml", "--subvolume_radius", "0.75"};
   if (p.variant & V_VOLCORR) c.args.push_back("--do-vol-corr");
   if (p.variant & V_BLOCKS) c.args.push_back("--do-blocks");
   if (p.block > 0) { c.args.push_back("--write-every"); c.args.push_back(std::to_string(p.block)); }
